@@ -514,12 +514,14 @@ int main(int argc, char** argv) {
   } else {
     // process-global singletons: one forked child per run; the child reports through a pipe
     for (uint64_t s = g_args.seed0; s < g_args.seed0 + g_args.n; s++) {
+      if (over_budget()) { probe("stopped_by_time_budget"); break; }
       int fd[2];
       if (pipe(fd)) return 2;
       fflush(stdout);
       pid_t pid = fork();
       if (pid == 0) {
         close(fd[0]);
+        g_budget_exit = false;
         run_api(s);
         struct { vsim::Config c; vsim::Stats st; uint64_t h; } rep{g_cfg, vsim::stats(), vsim::trace_hash()};
         if (write(fd[1], &rep, sizeof rep) != sizeof rep) _exit(3);
